@@ -133,7 +133,15 @@ fn expected(m: &Mapping, c: u32) -> Option<u16> {
     m.binary_search_by(|e| e.0.cmp(&c)).ok().map(|i| m[i].1)
 }
 
+thread_local! {
+    /// set while the plain look-up surface is checked on a font that also carries a Cmap14
+    static CASE_OVERRIDE: std::cell::RefCell<Option<Value>> = const { std::cell::RefCell::new(None) };
+}
+
 fn case_json(m: &Mapping, full_bmp: bool) -> Value {
+    if let Some(v) = CASE_OVERRIDE.with(|c| c.borrow().clone()) {
+        return v;
+    }
     json!({
         "kind": "map",
         "full_bmp": full_bmp,
@@ -890,11 +898,26 @@ fn uvs_expected2(spec: &[SelSpec], cp: u32, sel: u32) -> (Option<MapVariant>, Op
 }
 
 fn check_uvs(run: &Run, spec: &[SelSpec], l: &mut Local) {
+    check_uvs_with(run, spec, &UVS_BASE, 1, false, l)
+}
+
+fn combined_json(spec: &[SelSpec], base: &[(u32, u16)], pos: usize) -> Value {
+    let mut v = uvs_json(spec);
+    v["kind"] = json!("combined");
+    v["mapping"] = json!(base.iter().map(|(c, g)| json!([c, g])).collect::<Vec<_>>());
+    v["pos"] = json!(pos);
+    v
+}
+
+/// One cmap holding the sub-tables of `from_mappings(base)` and a Cmap14 built from `spec`, whose
+/// encoding record is inserted at index `pos`. Variation look-ups are always checked; with `plain_too`
+/// the whole plain look-up surface (check_compiled) is checked on the same font as well.
+fn check_uvs_with(run: &Run, spec: &[SelSpec], base: &[(u32, u16)], pos: usize, plain_too: bool, l: &mut Local) {
     l.evals += 1;
+    let case = || if plain_too { combined_json(spec, base, pos) } else { uvs_json(spec) };
     let r = guard(|| {
         let mut cmap = wc::Cmap::from_mappings(
-            UVS_BASE
-                .iter()
+            base.iter()
                 .map(|(c, g)| (char::from_u32(*c).unwrap(), GlyphId::new(*g as u32))),
         )
         .expect("base mapping is conflict free");
@@ -921,22 +944,23 @@ fn check_uvs(run: &Run, spec: &[SelSpec], l: &mut Local) {
             .collect();
         let sub = wc::CmapSubtable::format_14(length, spec.len() as u32, records);
         // records are ordered (platform, encoding): (0,3) (0,5) (3,1)
+        let at = pos.min(cmap.encoding_records.len());
         cmap.encoding_records
-            .insert(1, wc::EncodingRecord::new(wc::PlatformId::Unicode, 5, sub));
+            .insert(at, wc::EncodingRecord::new(wc::PlatformId::Unicode, 5, sub));
         dump_table(&cmap)
     });
     l.trans += 2;
     let bytes = match r {
         Ok(Ok(b)) => b,
         Ok(Err(e)) => {
-            run.violation("Cmap14 fails to compile", &format!("{e}"), uvs_json(spec));
+            run.violation("Cmap14 fails to compile", &format!("{e}"), case());
             return;
         }
         Err(p) => {
             run.violation(
                 &format!("Cmap14 compile panic: {} in {}", p.kind(), p.site()),
                 &p.message,
-                uvs_json(spec),
+                case(),
             );
             return;
         }
@@ -957,16 +981,16 @@ fn check_uvs(run: &Run, spec: &[SelSpec], l: &mut Local) {
             }
         }
         let Some(c14) = c14 else {
-            run.violation("compiled Cmap14 sub-table not found / unreadable", "", uvs_json(spec));
+            run.violation("compiled Cmap14 sub-table not found / unreadable", "", case());
             return;
         };
         if !charmap.has_variant_map() {
-            run.violation("Charmap does not select the format-14 sub-table", "", uvs_json(spec));
+            run.violation("Charmap does not select the format-14 sub-table", "", case());
             return;
         }
         let charmap_ix = MappingIndex::new(&font).charmap(&font);
         if !charmap_ix.has_variant_map() || !charmap_ix.has_map() || charmap_ix.is_symbol() {
-            run.violation("MappingIndex::charmap() does not select the format-14 / format-4 sub-tables", "", uvs_json(spec));
+            run.violation("MappingIndex::charmap() does not select the format-14 / format-4 sub-tables", "", case());
             return;
         }
         let mut lookups = 0u64;
@@ -984,7 +1008,7 @@ fn check_uvs(run: &Run, spec: &[SelSpec], l: &mut Local) {
                     run.violation(
                         &format!("Cmap14::map_variant wrong answer for {kind} ({})", region(cp)),
                         &format!("map_variant(U+{cp:04X}, U+{sel:04X}) = {got:?}, encoded {exp:?}; {spec:x?}"),
-                        uvs_json(spec),
+                        case(),
                     );
                 }
                 let got = charmap.map_variant(cp, sel);
@@ -992,7 +1016,7 @@ fn check_uvs(run: &Run, spec: &[SelSpec], l: &mut Local) {
                     run.violation(
                         &format!("Charmap::map_variant wrong answer for {kind} ({})", region(cp)),
                         &format!("map_variant(U+{cp:04X}, U+{sel:04X}) = {got:?}, encoded {exp:?}; {spec:x?}"),
-                        uvs_json(spec),
+                        case(),
                     );
                 }
                 let got = charmap_ix.map_variant(cp, sel);
@@ -1000,7 +1024,7 @@ fn check_uvs(run: &Run, spec: &[SelSpec], l: &mut Local) {
                     run.violation(
                         &format!("MappingIndex::charmap().map_variant wrong answer for {kind} ({})", region(cp)),
                         &format!("map_variant(U+{cp:04X}, U+{sel:04X}) = {got:?}, encoded {exp:?}; {spec:x?}"),
-                        uvs_json(spec),
+                        case(),
                     );
                 }
                 lookups += 3;
@@ -1034,7 +1058,7 @@ fn check_uvs(run: &Run, spec: &[SelSpec], l: &mut Local) {
             run.violation(
                 "Cmap14::iter differs from the encoded sequences",
                 &format!("{spec:x?}: got {} entries, expected {}", got.len(), exp.len()),
-                uvs_json(spec),
+                case(),
             );
         }
         let mut got: Vec<(u32, u32, u32)> = charmap
@@ -1047,7 +1071,7 @@ fn check_uvs(run: &Run, spec: &[SelSpec], l: &mut Local) {
             run.violation(
                 "Charmap::variant_mappings differs from the encoded sequences",
                 &format!("{spec:x?}: got {} entries, expected {}", got.len(), exp.len()),
-                uvs_json(spec),
+                case(),
             );
         }
         let mut got: Vec<(u32, u32, u32)> = charmap_ix
@@ -1060,23 +1084,23 @@ fn check_uvs(run: &Run, spec: &[SelSpec], l: &mut Local) {
             run.violation(
                 "MappingIndex::charmap().variant_mappings differs from the encoded sequences",
                 &format!("{spec:x?}: got {} entries, expected {}", got.len(), exp.len()),
-                uvs_json(spec),
+                case(),
             );
         }
         // the nominal mapping next to it is undisturbed
-        for (c, g) in UVS_BASE {
+        for &(c, g) in base {
             if charmap_ix.map(c) != Some(GlyphId::new(g as u32)) {
                 run.violation(
                     "MappingIndex::charmap().map wrong answer for a mapped character (BMP) beside a Cmap14",
                     &format!("U+{c:04X}"),
-                    uvs_json(spec),
+                    case(),
                 );
             }
             if charmap.map(c) != Some(GlyphId::new(g as u32)) {
                 run.violation(
                     "Charmap::map wrong answer for a mapped character (BMP) beside a Cmap14",
                     &format!("U+{c:04X}"),
-                    uvs_json(spec),
+                    case(),
                 );
             }
         }
@@ -1100,9 +1124,122 @@ fn check_uvs(run: &Run, spec: &[SelSpec], l: &mut Local) {
         run.violation(
             &format!("Cmap14 reader panic: {} in {}", p.kind(), p.site()),
             &format!("{} ({}:{})", p.message, p.file, p.line),
-            uvs_json(spec),
+            case(),
         );
     }
+    if plain_too {
+        // the full plain look-up surface on the same font; replay files carry the combined case
+        let mut m: Mapping = base.to_vec();
+        m.sort();
+        CASE_OVERRIDE.with(|c| *c.borrow_mut() = Some(case()));
+        let r = guard(|| check_compiled(run, &m, false, &font_bytes, l));
+        CASE_OVERRIDE.with(|c| *c.borrow_mut() = None);
+        if let Err(p) = r {
+            run.violation(
+                &format!("cmap reader panic beside a format-14 sub-table: {} in {}", p.kind(), p.site()),
+                &format!("{} ({}:{})", p.message, p.file, p.line),
+                case(),
+            );
+        }
+    }
+}
+
+
+/// F6: plain mappings (incl. out-of-order glyph runs, i.e. glyphIdArray segments) and a Cmap14 in ONE
+/// cmap, the format-14 record at every position; format-14 sizes of both parities.
+fn combined_family(run: &Run) {
+    let plain: Vec<Vec<(u32, u16)>> = {
+        let ooo = vec![(0x41u32, 9u16), (0x42, 5), (0x43, 7), (0x44, 6)];
+        let inorder = vec![(0x61u32, 20u16), (0x62, 21), (0x63, 22)];
+        let ooo2 = vec![(0x4E00u32, 40u16), (0x4E01, 38), (0x4E02, 39)];
+        let supp = vec![(0x10000u32, 30u16), (0x10001, 29)];
+        let mut v = vec![];
+        for base in [
+            ooo.clone(),
+            [ooo.clone(), inorder.clone()].concat(),
+            inorder.clone(),
+            [ooo.clone(), ooo2.clone()].concat(),
+        ] {
+            v.push(base.clone());
+            v.push([base, supp.clone()].concat());
+        }
+        v
+    };
+    // per-selector bodies: default ranges 0..2, non-default mappings 0..3 (disjoint from the ranges)
+    let defs: Vec<Option<Vec<(u32, u8)>>> = vec![None, Some(vec![(0x30, 0)]), Some(vec![(0x30, 0), (0x5000, 1)])];
+    let nds: Vec<Option<Vec<(u32, u16)>>> = vec![
+        None,
+        Some(vec![(0x41, 5)]),
+        Some(vec![(0x41, 5), (0x4E01, 0xFFFE)]),
+        Some(vec![(0x41, 5), (0x4E01, 0xFFFE), (0x10001, 7)]),
+    ];
+    let mut bodies = vec![];
+    for d in &defs {
+        for n in &nds {
+            bodies.push((d.clone(), n.clone()));
+        }
+    }
+    let sels = [0xFE00u32, 0xFE01, 0xE0100];
+    let sel_lists: Vec<Vec<u32>> = vec![
+        vec![sels[0]], vec![sels[1]], vec![sels[2]],
+        vec![sels[0], sels[1]], vec![sels[0], sels[2]], vec![sels[1], sels[2]],
+        sels.to_vec(),
+    ];
+    let mut specs: Vec<Vec<SelSpec>> = vec![];
+    for sl in &sel_lists {
+        let mut digits = vec![0usize; sl.len()];
+        loop {
+            specs.push(
+                sl.iter()
+                    .zip(digits.iter())
+                    .map(|(s, b)| SelSpec { sel: *s, def: bodies[*b].0.clone(), nondef: bodies[*b].1.clone() })
+                    .collect(),
+            );
+            let mut i = digits.len();
+            let mut done = true;
+            while i > 0 {
+                i -= 1;
+                digits[i] += 1;
+                if digits[i] < bodies.len() {
+                    done = false;
+                    break;
+                }
+                digits[i] = 0;
+            }
+            if done {
+                break;
+            }
+        }
+    }
+    run.bound("F6.plain_mappings", json!(plain.len()));
+    run.bound("F6.uvs_tables", json!(specs.len()));
+    run.bound("F6.record_positions", json!("format-14 record inserted at every index 0..=records"));
+    let odd = specs
+        .iter()
+        .filter(|sp| {
+            let len: usize = 10 + 11 * sp.len()
+                + sp.iter().map(|s| s.def.as_ref().map_or(0, |d| 4 + 4 * d.len()) + s.nondef.as_ref().map_or(0, |n| 4 + 5 * n.len())).sum::<usize>();
+            len % 2 == 1
+        })
+        .count();
+    run.count("F6.uvs_tables_with_odd_nominal_size", odd as u64);
+    let locals: Vec<Local> = specs
+        .par_iter()
+        .map(|spec| {
+            let mut l = Local::new();
+            for base in &plain {
+                let nrec = if base.iter().any(|p| p.0 > 0xFFFF) { 4 } else { 2 };
+                for pos in 0..=nrec {
+                    check_uvs_with(run, spec, base, pos, true, &mut l);
+                }
+            }
+            l
+        })
+        .collect();
+    for l in locals {
+        l.merge(run, "F6");
+    }
+    run.sample(combined_json(&specs[5], &plain[0], 2));
 }
 
 fn uvs_family(run: &Run) {
@@ -1522,6 +1659,16 @@ fn body(run: &Run, replay: Option<&Value>) {
             }
             Some("uvs") => check_uvs(run, &uvs_from_json(case), &mut l),
             Some("edge") => check_edge(run, case, &mut l),
+            Some("combined") => {
+                let base: Vec<(u32, u16)> = case["mapping"]
+                    .as_array()
+                    .cloned()
+                    .unwrap_or_default()
+                    .iter()
+                    .map(|p| (p[0].as_u64().unwrap() as u32, p[1].as_u64().unwrap() as u16))
+                    .collect();
+                check_uvs_with(run, &uvs_from_json(case), &base, case["pos"].as_u64().unwrap_or(1) as usize, true, &mut l);
+            }
             _ => run.machinery_error("unknown replay kind"),
         }
         return;
@@ -1552,5 +1699,6 @@ fn body(run: &Run, replay: Option<&Value>) {
     run_family(run);
     block_family(run);
     uvs_family(run);
+    combined_family(run);
     edge_family(run);
 }
